@@ -217,3 +217,32 @@ Proof.
   - intros p q _ _ H. apply shiftr_mono. exact H.
   - apply shift_of_minimal.
 Qed.
+
+(* ---- Go map iteration order is irrelevant ---- *)
+(* newValidators / sortedArray / ValidatorsBigBuilder.Build range over Go maps in an unspecified
+   order; the model ranges over the association list front to back.  Any other order of the
+   same entries gives the same result. *)
+Lemma eff_nodup_perm l1 l2 id : NoDup (keys l1) -> Permutation l1 l2 -> eff l1 id = eff l2 id.
+Proof.
+  intros Hnd HP.
+  assert (Hnd2 : NoDup (keys l2)).
+  { unfold keys in *. apply (Permutation_NoDup (l := map fst l1)); [apply Permutation_map; exact HP|exact Hnd]. }
+  rewrite <- !vget_eff.
+  rewrite (apply_sets_nodup l1 []) by (rewrite app_nil_r; exact Hnd).
+  rewrite (apply_sets_nodup l2 []) by (rewrite app_nil_r; exact Hnd2).
+  rewrite !app_nil_r. apply vget_perm.
+  - apply (vmap_ok_perm (filter nz l1)); [apply filter_nz_ok; exact Hnd|apply Permutation_rev].
+  - eapply Permutation_trans; [apply Permutation_sym, Permutation_rev|].
+    eapply Permutation_trans; [apply filter_perm; exact HP|apply Permutation_rev].
+Qed.
+
+Theorem big_map_order_irrelevant m m' : vmap_ok m -> Permutation m m' ->
+  option_map v_cache (build (big_sets m)) = option_map v_cache (build (big_sets m')).
+Proof.
+  intros Hok HP. apply build_canonical. intros id.
+  assert (Hs : big_shift m = big_shift m').
+  { rewrite !big_shift_eq. f_equal. apply sum_weights_perm. exact HP. }
+  apply eff_nodup_perm.
+  - unfold big_sets, keys. rewrite map_map. cbn [fst]. apply Hok.
+  - unfold big_sets. rewrite Hs. apply Permutation_map. exact HP.
+Qed.
